@@ -54,6 +54,9 @@ type Scenario struct {
 	ThoroughBound      int
 	Complete           bool
 	NoThoroughComplete bool
+	// NoThoroughBounded: the thorough tier explores all interleavings only (which subsumes
+	// every preemption bound); used for large sets of small scenarios.
+	NoThoroughBounded bool
 	// ThoroughOnly scenarios are skipped by the quick tier.
 	ThoroughOnly bool
 	// Horizon is the maximal number of scheduling points of one execution (default 20000).
